@@ -130,6 +130,11 @@ def inputs(ctx):
                 continue
             ins.append({"id": "u%d" % n, "writer": w, "langs": [[(_t(Fraction(pool[i][0])), _t(Fraction(pool[i][1]))) for i in seq]]})
             n += 1
+            # the same list with one text for every caption (two speakers answering "Yes.", a refrain):
+            # captions that are equal in times AND text are still one cue each
+            if n % 2 == 0 or not ctx.quick:
+                ins.append({"id": "v%d" % n, "writer": w, "same_text": True,
+                            "langs": [[(_t(Fraction(pool[i][0])), _t(Fraction(pool[i][1]))) for i in seq]]})
     return ins
 
 
@@ -144,7 +149,7 @@ def _set(inp):
                 if j:
                     nodes.append(["b"])
                 lay = {"o": [["%d" % (10 + 10 * j), "%"], ["%d" % (10 + 5 * j), "%"]]} if k > 1 else None
-                nodes.append(["t", "L%d c%d p%d" % (li, ci, j)] + ([lay] if lay else []))
+                nodes.append(["t", "Yes." if inp.get("same_text") else "L%d c%d p%d" % (li, ci, j)] + ([lay] if lay else []))
             caps.append({"s": s if "/" in s else int(s), "e": e if "/" in e else int(e), "nodes": nodes})
         langs.append({"lang": ["en-US", "fr-FR", "de-DE"][li], "caps": caps})
     return build.caption_set({"langs": langs})
